@@ -70,6 +70,7 @@ def restructure(spec, rng):
 def all_cases(ctx):
     base = F.f_shape() + [c for c in F.f_unit(3, pairs=False)] + F.f_rand(ctx.seed, 20 if ctx.quick else 100, consts=None)
     base += F.renamed([c for c in F.f_unit(3) if c[0][0] == "pair"][:8] + F.f_shape()[:5], "miter2")
+    base += F.renamed([c for c in F.f_unit(3) if c[0][0] == "pair"][:6] + F.f_shape()[:6], "miter3")
     out = []
     for cid, spec in base:
         for variant in ("self", "copy", "restructured", "mutant", "renamed_input", "input_is_gate"):
@@ -136,11 +137,18 @@ def run(ctx):
             c1 = build(spec1) if spec1 is not None else None
             as_list = (len(det_combo := (sp, ep)) and (hash(str(det_combo)) % 2 == 0))
             conv = (lambda x: sorted(x)) if as_list else (lambda x: set(x))
-            m, e = call(tx.miter, c0, c1, conv(sp) if sp is not None else None, conv(ep) if ep is not None else None)
+            conv_sp = (lambda x: iter(sorted(x))) if (hash(str((sp, ep, 1))) % 3 == 0 and sp) else conv  # startpoints also as a one-shot iterator
+            m, e = call(tx.miter, c0, c1, conv_sp(sp) if sp is not None else None, conv(ep) if ep is not None else None)
             ctx.unchanged("miter", c0, spec0)
             if c1 is not None:
                 ctx.unchanged("miter", c1, spec1)
             det = {"case": cid, "c0": spec0, "c1": spec1, "startpoints": sp, "endpoints": ep}
+            if e is not None and isinstance(e, ValueError) and ("already in circuit" in str(e) or "overlaps" in str(e)):
+                allnames = set(A0.types) | set(A1.types)
+                made = {"sat"} | {f"dif_{x}" for x in allnames} | {f"c0_{x}" for x in A0.types} | {f"c1_{x}" for x in A1.types}
+                if allnames & made:
+                    ctx.rejected("documented rejection: a node is named like a node the miter creates")
+                    continue
             if e is not None:
                 ctx.side("miter-raises", False, f"miter:raises:{type(e).__name__}", f"miter raised {e!r}", det)
                 continue
